@@ -234,6 +234,30 @@ func controlDependsOn(fn *ssa.Function, in ssa.Instruction, condPred func(ssa.Va
 	return false
 }
 
+// controlDependsOnIf: as controlDependsOn, with a predicate on the branch instruction itself.
+func controlDependsOnIf(fn *ssa.Function, in ssa.Instruction, pred func(*ssa.If) bool) bool {
+	target := in.Block()
+	for _, b := range fn.Blocks {
+		if len(b.Instrs) == 0 || b == target {
+			continue
+		}
+		ifi, ok := b.Instrs[len(b.Instrs)-1].(*ssa.If)
+		if !ok || !b.Dominates(target) || !pred(ifi) {
+			continue
+		}
+		r0 := b.Succs[0] == target || blockReaches(b.Succs[0], target, b)
+		r1 := b.Succs[1] == target || blockReaches(b.Succs[1], target, b)
+		if r0 == r1 {
+			continue
+		}
+		if !exitReachableAvoiding(b, target) {
+			continue
+		}
+		return true
+	}
+	return false
+}
+
 // exitReachableAvoiding: some path from start reaches a block ending in Return/Panic without entering avoid.
 func exitReachableAvoiding(start, avoid *ssa.BasicBlock) bool {
 	if start == avoid {
